@@ -318,6 +318,55 @@ pub async fn op_editor_roundtrip(sc: Value) -> Value {
                 push!(format!("a file whose SHA-256 differs from the signed digest of {name:?} was published under that name ({})", if link { "link_target" } else { "copy_target" }), &log);
             }
         }
+        // ---- publication by walking a directory (copy_targets / link_targets): the input directory holds the top-level targets under their
+        // own names, some as regular files, some as symlinks to files elsewhere, some inside a symlinked sub-directory (what a directory
+        // produced by link_targets looks like); if the walk reports success every one of them must have been published
+        {
+            let walk_in = work.path().join("walk-in");
+            let store = work.path().join("walk-store");
+            let store_dir = work.path().join("walk-store-dir");
+            for d in [&walk_in, &store, &store_dir] {
+                std::fs::create_dir_all(d).unwrap();
+            }
+            let mut expect: Vec<(String, Vec<u8>, &str)> = vec![];
+            for (i, (name, content)) in model["targets"].targets.iter().filter(|(n, _)| !n.contains('/')).enumerate() {
+                match i % 3 {
+                    0 => {
+                        std::fs::write(walk_in.join(name), content).unwrap();
+                        expect.push((name.clone(), content.clone(), "regular file"));
+                    }
+                    1 => {
+                        std::fs::write(store.join(name), content).unwrap();
+                        std::os::unix::fs::symlink(store.join(name), walk_in.join(name)).unwrap();
+                        expect.push((name.clone(), content.clone(), "symlink to a file"));
+                    }
+                    _ => {
+                        std::fs::write(store_dir.join(name), content).unwrap();
+                        expect.push((name.clone(), content.clone(), "file in a symlinked directory"));
+                    }
+                }
+            }
+            std::os::unix::fs::symlink(&store_dir, walk_in.join("linked-dir")).unwrap();
+            std::fs::write(walk_in.join("not-a-target"), b"stray file").unwrap();
+            let td3 = work.path().join("targets-walk");
+            let res = if link { signed.link_targets(&walk_in, &td3, PathExists::Skip).await } else { signed.copy_targets(&walk_in, &td3, PathExists::Skip).await };
+            match res {
+                Err(e) => push!(format!("{} over a directory of genuine target files failed: {e}", if link { "link_targets" } else { "copy_targets" }), &log),
+                Ok(()) => {
+                    for (name, content, how) in &expect {
+                        let dest = td3.join(if consistent { format!("{}.{}", hex::encode(sha(content)), name) } else { name.clone() });
+                        match std::fs::read(&dest) {
+                            Ok(b) if &b == content => {}
+                            Ok(_) => push!(format!("{} reported success but {name:?} ({how}) was published with other bytes", if link { "link_targets" } else { "copy_targets" }), &log),
+                            Err(_) => push!(format!("{} reported success but target {name:?}, present in the input directory as a {how}, was not published", if link { "link_targets" } else { "copy_targets" }), &log),
+                        }
+                    }
+                    if td3.join("not-a-target").exists() {
+                        push!("a file that is not a signed target was published by the directory walk".into(), &log);
+                    }
+                }
+            }
+        }
         // ---- the client
         // (a) through the stock file transport: target names that need percent-encoding in a URL are requested under their ENCODED name
         if published {
